@@ -262,3 +262,32 @@ pub fn product(n: usize, len: usize, mut f: impl FnMut(&[usize])) {
         }
     }
 }
+
+
+/// Numeric program data with fields of 1..=40 digits in every numeric position (mantissa,
+/// fraction, exponent, radix literals, block length), also with white space between mantissa
+/// and exponent (IEEE 488.2 7.7.2.2 permits it; the library may or may not) - used by C05
+/// (no crash) and C13 (no allocation).
+pub fn long_numeric_literals() -> Vec<String> {
+    let mut lits: Vec<String> = vec![];
+    for n in 1..=40usize {
+        for d in ["9".repeat(n), format!("1{}", "0".repeat(n - 1)), "4294967296".chars().cycle().take(n).collect::<String>()] {
+            for f in [
+                format!("1E{d}"), format!("1E-{d}"), format!("1e+{d}"), format!("{d}"), format!("-{d}"), format!("{d}.{d}"), format!(".{d}E{d}"),
+                format!("0.{}1", "0".repeat(n)), format!("{d}E-{d}"),
+                format!("{d}.{d} E+3"), format!("0.{}25 E+40", "0".repeat(n)), format!("{d} e -{d}"), format!("-.{d}  E 2"),
+            ] {
+                lits.push(f);
+            }
+        }
+        lits.push(format!("#H{}", "F".repeat(n)));
+        lits.push(format!("#Q{}", "7".repeat(n)));
+        lits.push(format!("#B{}", "1".repeat(n)));
+        lits.push(format!("#H{}", "0".repeat(n)));
+        if n <= 9 {
+            lits.push(format!("#{n}{}", "9".repeat(n)));
+            lits.push(format!("#{n}{}", "0".repeat(n)));
+        }
+    }
+    lits
+}
